@@ -343,6 +343,15 @@ class Ev(T.Evaluator):
             l = self.ev(n["l"], env)
             r = self.ev(n["r"], env)
             return self._bin(n["op"], l, r)
+        if k == "call" and H.macro_of(n, "vec") and (n.get("ty") or "").startswith("alloc::vec::Vec<"):
+            # vec![a, b, ..] (whatever the toolchain expands it to): the elements are the array literal inside
+            arrs = [x for x in H.walk(n) if x.get("k") == "array" and H.macro_of(x, "vec")]
+            reps = [x for x in H.walk(n) if x.get("k") == "repeat"]
+            if len(arrs) == 1 and not reps:
+                return ("iter", [self.ev(x, env) for x in arrs[0]["es"]])
+            if not arrs and not reps:
+                return ("iter", [])
+            return T.sym("vec![…; n]")
         if k == "array":
             return ("t", [self.ev(x, env) for x in n["es"]])
         if k == "index":
@@ -377,6 +386,7 @@ class Ev(T.Evaluator):
                 items = it[1]
             else:
                 self.effects.append(("loopnode", n))
+                self.unknown.append("for loop over an uninterpreted value: %s" % show(it)[:120])
                 return T.sym("<loop over %s>" % show(it))
             for x in items:
                 T.match_pat(n["pat"], x, env)
@@ -572,6 +582,8 @@ class Ev(T.Evaluator):
                 return ("entry", recv_path(n), a0, args[1])
             if nm == "is_empty":
                 return ("b", not tb)
+            if nm == "len" and len(args) == 1:
+                return ("i", len(tb))
             if nm in ("clone", "as_ref", "borrow"):
                 return a0
         if k0 == "entry" and nm in ("or_insert_with", "or_insert") and len(args) == 2:
@@ -709,8 +721,10 @@ class Ev(T.Evaluator):
             return T.V("Some", ("t", [("i", 0) if cl == "plain" else ("pos", "positive", a0[1]), T.sym("<char>")]))
         if nm in ("context", "with_context") and k0 == "v" and len(args) == 2:
             return a0                              # opaque fallible term: the context only decorates the error
+        if nm in ("get_or_insert_with", "get_or_insert", "get_or_insert_default") and k0 == "v" and a0[1] not in ("Some", "None", "Ok", "Err"):
+            return term("vec-inside", a0)          # the collection inside an opaque Option place
         if nm in ("push", "push_back") and len(args) == 2 and n.get("k") == "mcall":
-            self.fx.append(("push", recv_path(n), args[1]))
+            self.fx.append(("push", recv_path(n), args[1], a0))
             return ("t", [])
         # ---- identity wrappers (checked newtypes, references)
         if nm in IDENTITY and len(args) == 1:
